@@ -97,7 +97,8 @@ class Explorer:
         self.check_panics = True      # turn assert terminators into obligations
         self.assumptions: List[Any] = []
         # per-path state
-        self.smt = Smt(quick_ms=int(os.environ.get('VERIF_Z3_QUICK_MS', '100')), timeout_ms=timeout_ms, seed=seed)
+        self.smt = Smt(quick_ms=int(os.environ.get('VERIF_Z3_QUICK_MS', '100')), timeout_ms=timeout_ms, seed=seed,
+                       cross_check=os.environ.get('VERIF_CROSS_CHECK') == '1')
         self.solver = self.smt      # .add() keeps the incremental z3 in sync
         self.pc: List[Any] = []
         self.trail: List[List[int]] = []    # [chosen_index_in_alts, alts]
